@@ -367,6 +367,15 @@ def noise_packets(ci, spec):
             elif shape == "vn":
                 b = bytes([0x80 | rnd.getrandbits(7)]) + b"\x00\x00\x00\x00" + bytes([8]) + rbytes(rnd, 8) + bytes([8]) + rbytes(rnd, 8) + \
                     rbytes(rnd, 4 * rnd.randrange(0, 4) + rnd.choice([0, 0, 1]))
+            elif shape in ("short_cid", "long_cid") and spec.get("cids"):
+                # a datagram of another flow that happens to carry a connection ID some connection of the capture uses (short connection
+                # IDs coincide easily): short header + that ID + anything, or a long header addressed to it
+                cid = bytes.fromhex(rnd.choice(spec["cids"]))
+                if shape == "short_cid":
+                    b = bytes([0x40 | rnd.getrandbits(6)]) + cid + rbytes(rnd, rnd.randrange(20, 120))
+                else:
+                    b = bytes([0xC0 | rnd.getrandbits(6)]) + b"\x00\x00\x00\x01" + bytes([len(cid)]) + cid + bytes([4]) + rbytes(rnd, 4) + \
+                        rbytes(rnd, rnd.randrange(30, 200))
             else:  # short
                 b = bytes([0x40 | rnd.getrandbits(6)]) + rbytes(rnd, rnd.randrange(0, 200))
             out.append(LPkt(ci, "udp", bool(rnd.getrandbits(1)), b, ep, tag="noise"))
